@@ -114,23 +114,22 @@ class OS(object):
                 ms = bprm.loadsegment(s, self.PAGESIZE)
                 if ms != None:
                     vaddr, data = ms.popitem()
-                    p.mmap.write(vaddr, data)
+                    p.state.mmap.write(vaddr, data)
             elif s.p_type == PT_GNU_STACK:
                 # executable_stack = s.p_flags & PF_X
                 pass
         # init task state:
-        p.state = p.initstate()
         for r in cpu.R:
             p.state[r] = cpu.cst(0, 32)
         p.state[cpu.SR] = cpu.cst(0, 32)
-        p.state[cpu.PC] = cpu.cst(p.bin.entrypoints[0], 32)
+        p.state[cpu.pc] = cpu.cst(p.bin.entrypoints[0], 32)
         # create the stack space:
         if self.ASLR:
-            p.mmap.newzone(p.cpu.esp)
+            p.state.mmap.newzone(p.cpu.sp)
         else:
             stack_base = 0x7FFFFFFF & ~(self.PAGESIZE - 1)
             stack_size = 2 * self.PAGESIZE
-            p.mmap.write(stack_base - stack_size, b"\0" * stack_size)
+            p.state.mmap.write(stack_base - stack_size, b"\0" * stack_size)
             p.state[cpu.sp] = cpu.cst(stack_base, 32)
         # create the dynamic segments:
         if bprm.dynamic and interp:
@@ -142,7 +141,7 @@ class OS(object):
         for k, f in p.bin._Elf__dynamic(None).items():
             xf = cpu.ext(f, size=32)
             xf.stub = p.OS.stub(f)
-            p.mmap.write(k, xf)
+            p.state.mmap.write(k, xf)
         #TODO: update plt info
 
     def stub(self, refname):
